@@ -106,6 +106,7 @@ type Run struct {
 	Hist        map[string]int
 	Samples     []any
 	Findings    []Finding
+	perSig      map[string]int
 	Rule        string
 	Extra       map[string]any
 	MaxSamples  int
@@ -189,7 +190,22 @@ func (r *Run) Sample(s any) {
 func (r *Run) Fail(oracle, detail string, sig map[string]string) {
 	r.mu.Lock()
 	defer r.mu.Unlock()
-	if len(r.Findings) < 2000 {
+	// cap per signature, so that many occurrences of one (possibly known) finding cannot crowd out a rare other one
+	keys := make([]string, 0, len(sig))
+	for k := range sig {
+		keys = append(keys, k)
+	}
+	sort.Strings(keys)
+	var sk strings.Builder
+	for _, k := range keys {
+		sk.WriteString(k + "=" + sig[k] + ";")
+	}
+	if r.perSig == nil {
+		r.perSig = map[string]int{}
+	}
+	r.perSig[sk.String()]++
+	r.Hist["finding:"+oracle]++
+	if r.perSig[sk.String()] <= 250 && len(r.Findings) < 20000 {
 		r.Findings = append(r.Findings, Finding{Case: r.caseNo, Oracle: oracle, Detail: detail, Signature: sig})
 	}
 }
